@@ -11,7 +11,7 @@
     (`CpuContext::memoize_register`); a missing key reads 0 (`CONTEXT_xx::default()`).
   * `valid = none` is `MinidumpContextValidity::All`; `some names` is the `HashSet` exactly as the
     code fills it — the ARM unwinders insert alias names (`r11`, `r13`, `r15`, `x29`), which
-    `register_is_valid` resolves but `callee_forwarded_regs` does not.
+    `register_is_valid` resolves (and so does the ARM `callee_forwarded_regs` since the F28 fix).
 -/
 import MdModel.Prelude
 import MdModel.Gen.WalkConsts
